@@ -71,7 +71,8 @@ inductive Hdr where
   | secs (x : Int)          -- delay-seconds (anything `float()` parses to a finite number)
   | date (delta : Int)      -- an HTTP-date; `delta = when - now` at the moment the handler runs
   | garbage                 -- neither: parsed to None — and the details are NOT consulted
-  | overflow                -- `float()` gives ±inf ("inf", "1e999"): `int()` raises OverflowError (finding F2)
+  | overflow                -- `float()` gives ±inf ("inf", "1e999"): OverflowError is caught (F2, fixed in
+                            -- ae1ab5d), the date parse fails too: None, like garbage
   deriving DecidableEq, Repr, Inhabited
 
 /-- What one HTTP error response carries, as far as the loop reads it. -/
@@ -111,7 +112,7 @@ def retryAfter (r : Resp) : Option Int :=
   | .secs h => some (truncSec h)
   | .date d => some (if truncSec d < 0 then 0 else truncSec d)
   | .garbage => none
-  | .overflow => none          -- never consulted: `verdict` raises first
+  | .overflow => none
   | .absent =>
     if r.payload = .statusJson then
       match r.detRA with
@@ -137,10 +138,7 @@ def verdict : Fault → Verdict
   | .http r =>
     if raises r.status then
       let c := classify r.status
-      if retryable c then
-        -- the Retry-After parsing comes first in the handler; an OverflowError there leaves `request` (F2)
-        if c = .tooMany && r.hdr = .overflow then .raise .other
-        else .retry c (if c = .tooMany then retryAfter r else none)
+      if retryable c then .retry c (if c = .tooMany then retryAfter r else none)
       else .raise c
     else .success
   | .exc conn timeout runtime ssl closed =>
